@@ -685,7 +685,7 @@ fn cleaner_point(s: &Scenario, k: Option<usize>, kill_a: bool, expect_shape: Opt
     let mut all_refusals: Vec<String> = Vec::new();
     if !a_done {
         // B runs while A is stopped in the middle of its cleanup
-        match run_untraced("crash_cleaner", &args, Duration::from_secs(15)) {
+        match run_untraced("crash_cleaner", &args, Duration::from_secs(40)) {
             Ok(out) => {
                 oks += clean_ok_count(&out);
                 all_refusals.extend(refusals(&out));
@@ -695,7 +695,7 @@ fn cleaner_point(s: &Scenario, k: Option<usize>, kill_a: bool, expect_shape: Opt
         }
         if kill_a {
             a.kill();
-            match run_untraced("crash_cleaner", &args, Duration::from_secs(15)) {
+            match run_untraced("crash_cleaner", &args, Duration::from_secs(40)) {
                 Ok(out) => {
                     oks += clean_ok_count(&out);
                     all_refusals.extend(refusals(&out));
@@ -724,7 +724,7 @@ fn cleaner_point(s: &Scenario, k: Option<usize>, kill_a: bool, expect_shape: Opt
         res.notes.push(format!("A: {}", out.trim().replace('\n', " | ")));
     }
     // final look: nothing may be left to clean, and nothing may be left behind
-    match run_untraced("crash_cleaner", &args, Duration::from_secs(15)) {
+    match run_untraced("crash_cleaner", &args, Duration::from_secs(40)) {
         Ok(out) => {
             let dead = done_field(&out, "dead=").unwrap_or(99);
             let alive = done_field(&out, "alive=").unwrap_or(99);
@@ -824,7 +824,7 @@ fn cleaner_threads_point(s: &Scenario, k: Option<usize>, expect_name: Option<&st
             res.problems.push(format!("c07-cleaner-crashed: output of the two cleaner threads: {}", out.trim().replace('\n', " | ")));
         }
     }
-    match run_untraced("crash_cleaner", &final_args, Duration::from_secs(15)) {
+    match run_untraced("crash_cleaner", &final_args, Duration::from_secs(40)) {
         Ok(o) => {
             let dead = done_field(&o, "dead=").unwrap_or(99);
             let alive = done_field(&o, "alive=").unwrap_or(99);
@@ -1428,7 +1428,8 @@ fn main() {
             if i >= work.len() + cleaner_work.len() + atomic_work.len() + race_work.len() + thread_work.len() || Instant::now() > deadline {
                 break;
             }
-            let r = if i >= work.len() + cleaner_work.len() + atomic_work.len() + race_work.len() {
+            let again = |i: usize| -> Result<PointResult, String> {
+              if i >= work.len() + cleaner_work.len() + atomic_work.len() + race_work.len() {
                 let (s, k, name) = &thread_work[i - work.len() - cleaner_work.len() - atomic_work.len() - race_work.len()];
                 cleaner_threads_point(s, Some(*k), Some(name)).map(|(r, _)| r)
             } else if i >= work.len() + cleaner_work.len() + atomic_work.len() {
@@ -1443,7 +1444,16 @@ fn main() {
             } else {
                 let (s, n) = &atomic_work[i - work.len() - cleaner_work.len()];
                 atomic_point(s, Some(*n)).map(|(r, _)| r)
+              }
             };
+            let r = again(i);
+            // a hang verdict rests on a timeout; on a loaded machine a slow run looks the same:
+            // such a point is executed once more and the second execution counts
+            let timed_out = |r: &Result<PointResult, String>| match r {
+                Ok(p) => p.problems.iter().any(|x| x.contains("hang") || x.contains("timeout")),
+                Err(e) => e.contains("timeout"),
+            };
+            let r = if timed_out(&r) { again(i) } else { r };
             collected.lock().unwrap().push(r);
         }));
     }
